@@ -173,7 +173,7 @@ def _c06(prop, tier, seed, t0):
     wd = vlib.fresh_dir(os.path.join(vlib.WORK, prop))
     n = 90 if tier == "quick" else 1800
     allc = os.path.join(wd, "rep.all")
-    total = vlib.gen_cases(exe, allc, "repeat:base,midconflict,soft,hints,cyclic,unionoverlap,multilock,locks,excl", n, seed, "", whitebox=False,
+    total = vlib.gen_cases(exe, allc, "repeat:base,midconflict,soft,hints,cyclic,unionoverlap,multilock,locks,excl,multicons", n, seed, "", whitebox=False,
                            extra=["--reps", "4"])
     shards = vlib.split_file(allc, 8 if tier == "quick" else 32, wd, "rep")
     merged = []
